@@ -51,6 +51,25 @@ def export_cases(cfg, d, name):
     return files
 
 
+def run_cases(v, b, args, timeout=3000):
+    """Runs the driver.  A Go runtime `fatal error: concurrent map ...` with the provider's code on a goroutine stack
+    is the observation itself (the real provider and its consumer raced on a map and killed the process), not a
+    machinery failure: it is reported as a violation and False is returned (no trace to validate)."""
+    import re
+    p = vlib.run_driver(b, args, timeout=timeout, ok_codes=(0, 2))
+    if p.returncode == 0:
+        return True
+    m = re.search(r"fatal error: (concurrent map [a-z ]+)", p.stderr)
+    frames = [ln.strip() for ln in p.stderr.splitlines() if "github.com/yandex/pandora/components/providers/http" in ln]
+    if m and frames:
+        v.violation("crash fatal=%s" % m.group(1).strip().replace(" ", "_"),
+                    "the process died while the real provider was consumed (Acquire concurrent with Run, as the engine does): "
+                    "%s; provider frames: %s" % (m.group(1).strip(), " | ".join(frames[:6])),
+                    replay_obj={"stderr_head": p.stderr[:6000], "args": args}, replay_name="crash.json")
+        return False
+    raise vlib.MachineryError("driver %s failed rc=%s\n%s" % (" ".join(args[:2]), p.returncode, p.stderr[-4000:]))
+
+
 def brief_case(row, maxitems=6):
     def item(it):
         if it["k"] == "E":
